@@ -141,6 +141,16 @@ def check_invariant(case, res, base, what):
 @PROP.given('fault-points', lambda tier: case_strategy(tier), quick=160, thorough=3200, shards_quick=8)
 def fault_points(case, note):
     blob = case['data'] if case['data'] is not None else M.encode(case['pel'])
+    if case['state'] == 'undecodable':
+        # damage does not always make a PEL undecodable: classify by an in-process decode with the
+        # options the command line uses (a damaged PEL that still decodes is an ordinary good PEL)
+        from ..run import decode
+        o = decode(blob)
+        if o.exc is None and o.text:
+            case = dict(case, state='good')
+            note.label('damaged-but-decodable')
+        elif o.exc is None and not o.text and blob[0:2] == b'PH' and blob[48:50] == b'UH':
+            case = dict(case, state='filtered')
     what0 = 'peltool %s (%s PEL)' % (case['mode'], case['state'])
     base = run_once(case, blob)
     check_invariant(case, base, base, what0 + ', no fault')
